@@ -175,10 +175,23 @@ func (server *Server) Start() {
 						}
 
 						if isRoot {
+							if len(b) < HeaderV3LenBytes {
+								status = "error"
+								resps <- response{key: key, value: result}
+								server.logger.Printf("parsing header failed: %s is shorter than a header", key.name)
+								return
+							}
 							header, err := DeserializeHeader(b[0:HeaderV3LenBytes])
 							if err != nil {
 								status = "error"
+								resps <- response{key: key, value: result}
 								server.logger.Printf("parsing header failed: %v", err)
+								return
+							}
+							if header.RootOffset > uint64(len(b)) || header.RootLength > uint64(len(b))-header.RootOffset {
+								status = "error"
+								resps <- response{key: key, value: result}
+								server.logger.Printf("parsing header failed: root directory of %s is not within the first %d bytes", key.name, len(b))
 								return
 							}
 
